@@ -150,6 +150,9 @@ pub const TGT1: &str = "tgt1";
 pub const TGT2: &str = "tgt2";
 pub const TGT3: &str = "tgt3";
 
+/// A spelling of the boxed-future return type that is neither `impl Future` nor literally `Pin<Box<..>>`.
+pub type BoxFut<'a, T> = Pin<Box<dyn Future<Output = T> + 'a>>;
+
 /// Plain error value (no effects).
 pub struct Er(pub u32);
 impl fmt::Debug for Er {
